@@ -379,6 +379,8 @@ def run(ctx: Ctx) -> None:
         "packages whose names are drawn from pools (plain shapes, the 23 Safe-DS keywords that are legal Python names, "
         "keyword_ / keyword_x / __keyword__) for modules, classes, nested classes, functions, methods, properties, "
         "parameters, attributes, instance attributes, enums, enum members, numpydoc result names, type variables; "
+        "classes with 0-3 superclasses (earlier classes of the module, OrderedDict, ABC), functions with all five parameter kinds, "
+        "functions / classes re-exported by their package (stub files of their own) over sub-packages whose paths do or do not change under -nc; "
         "string defaults / Literal values / docstrings over a hostile alphabet (braces, comment openers, quotes ', tabs, "
         "newlines, non-ASCII); all 4 docstring styles x both naming settings; plus a deterministic sweep putting every "
         "keyword (3 spellings) in every position. evaluations = stub files parsed; non-trivial = a file containing a "
